@@ -391,7 +391,7 @@ def fault_cases(draw, max_faults=2):
 
 class Faults(Facet):
     name = "faults"
-    examples = {"quick": 6000, "thorough": 300000}
+    examples = {"quick": 6000, "thorough": 160000}
     shards = {"quick": 16, "thorough": 16}
 
     def strategy(self, tier):
